@@ -52,7 +52,13 @@ func c08Run(env *core.Env, idx int) *core.CaseResult {
 	var commits []c08Commit
 	var tags []string
 	var desc map[string]any
-	if idx%4 != 3 {
+	if idx%16 == 9 {
+		events, desc = c08Boundary(env, r, idx, res)
+		tags = []string{"single-goroutine", "log-buffer-boundary"}
+		if events == nil {
+			return res
+		}
+	} else if idx%4 != 3 {
 		bias := "commit"
 		if idx%2 == 1 {
 			bias = "loser"
@@ -100,7 +106,7 @@ func c08Run(env *core.Env, idx int) *core.CaseResult {
 		}
 		events = h.Events
 		for k, v := range h.Stats {
-			if k == "join_statements" || k == "insert_bursts_next_to_open_transactions" || k == "checkpoints" || k == "stmt_update_indexed_column_of_every_row" || k == "stmt_conflict_half_way_through_a_scan" {
+			if k == "join_statements" || k == "insert_bursts_next_to_open_transactions" || k == "checkpoints" || k == "stmt_update_indexed_column_of_every_row" || k == "checkpoints_right_after_a_big_transaction" || k == "stmt_conflict_half_way_through_a_scan" {
 				res.Add("history_"+k, v)
 			}
 		}
@@ -373,4 +379,82 @@ func c08Concurrent(env *core.Env, r *rand.Rand, idx int, res *core.CaseResult) (
 	guarded(func() { db.S.ShutdownForTescase() })
 	res.Add("concurrent_clients", int64(clients))
 	return events, commits, map[string]any{"memKB": memKB, "clients": clients, "ops_per_client": ops, "events": len(events), "log_write_delay": rc.LogDelay.String()}
+}
+
+// c08Boundary: records that straddle the END OF THE LOG BUFFER, followed by a page write that is not an eviction. After any forced
+// log flush the buffer is empty; read-only statements then append a fixed number of unforced bytes each (measured, not assumed:
+// statements are issued until the recorder sees the buffer-full write). The class walks the fill level towards the buffer end in
+// steps of one read-only statement and, at each of 8 distances (0-7 statements before the end: the scenario appends about 6 statements worth of bytes), runs a small scenario whose records then fall across the end:
+// an INSERT that is rolled back followed by a checkpoint, or a CREATE TABLE (its first heap page is written at once).
+// The event sequence is judged by the ordinary trace rules.
+func c08Boundary(env *core.Env, r *rand.Rand, idx int, res *core.CaseResult) ([]rec.Event, map[string]any) {
+	get := rec.Install()
+	db := sqlx.Open(fmt.Sprintf("%s/c08b_%d", env.TmpDir, idx), 4096, sqlx.Options{})
+	rc := get()
+	rec.Uninstall()
+	defer func() { guarded(func() { db.S.ShutdownForTescase() }) }()
+	if err := db.CreateTableSQL("bw", crashlab.Cols); err != nil {
+		res.Inconclusive = "create table failed"
+		return nil, nil
+	}
+	for i := 1; i <= 8; i++ {
+		db.Auto(fmt.Sprintf("INSERT INTO bw(id, k, v) VALUES (%d, %d, 'pre%d.');", i, i, i))
+	}
+	bigWrites := func() int {
+		n := 0
+		for _, e := range rc.Events {
+			if e.Kind == rec.WriteLog && len(e.Data) > 400000 {
+				n++
+			}
+		}
+		return n
+	}
+	sel := "SELECT id FROM bw WHERE id = 3;"
+	// measure: read-only statements per buffer (the buffer is empty after the last INSERT's commit)
+	perBuf := 0
+	for before := bigWrites(); bigWrites() == before; perBuf++ {
+		if perBuf > 200000 {
+			res.Inconclusive = "read-only statements do not fill the log buffer"
+			return nil, nil
+		}
+		db.Auto(sel)
+	}
+	res.Add("boundary_read_only_statements_per_log_buffer", int64(perBuf))
+	kind := []string{"rollback-then-checkpoint", "create-table"}[r.Intn(2)]
+	nextID := int32(100)
+	scenarios := 0
+	for k := 0; k < 8; k++ {
+		// empty the buffer (a committed write), then walk to k statements before the buffer end
+		db.Auto(fmt.Sprintf("UPDATE bw SET k = %d WHERE id = 1;", 1000+k))
+		before := bigWrites()
+		for i := 0; i < perBuf-1-k; i++ {
+			db.Auto(sel)
+		}
+		if bigWrites() != before {
+			continue // the buffer filled earlier than measured: this distance is not usable
+		}
+		switch kind {
+		case "rollback-then-checkpoint":
+			t := db.Begin()
+			pay := strings.Repeat("b", 10+r.Intn(60))
+			db.Exec(t, fmt.Sprintf("INSERT INTO bw(id, k, v) VALUES (%d, 5, 'bnd%d.%s');", nextID, nextID, pay))
+			nextID++
+			db.Abort(t)
+			rc.Mark("CKPT-BEGIN", 0)
+			db.S.ForceCheckpointingForTestcase()
+			rc.Mark("CKPT-END", 0)
+		default:
+			if err := db.CreateTableSQL(fmt.Sprintf("bt%d", k), crashlab.Cols); err != nil {
+				res.Inconclusive = "create table failed"
+				return nil, nil
+			}
+		}
+		scenarios++
+	}
+	res.Add("boundary_scenarios_run", int64(scenarios))
+	res.Add("boundary_buffer_full_log_writes", int64(bigWrites()))
+	res.Add("log_buffer_boundary_histories", 1)
+	events := rc.Events
+	rc.On = false
+	return events, map[string]any{"class": "log-buffer-boundary", "scenario": kind, "read_only_statements_per_log_buffer": perBuf, "scenarios": scenarios, "events": len(events)}
 }
